@@ -442,7 +442,8 @@ CHECKS = {
     "C02": dict(
         technique='runtime differential oracle: SP 800-38D reference (bitwise GHASH) / OpenSSL vs every family and route, every length 0..1100 plus boundary and 512 MiB messages',
         level="exploration", evaluations="gcm_calls", must_observe=["gcm_calls", "cases_sse", "cases_avx_gen2", "cases_avx_gen4", "cases_vaes_avx512"],
-        rule=("case c<=1100 uses plaintext length c exactly (every tail of the 8/16/48-block loops), later cases draw lengths around loop edges and up to 64 KiB "
+        rule=("case c<=1100 uses plaintext length c exactly (every tail of the 8/16/48-block loops), cases 1101..1400 every block count 230..329 with tails 0/1/15 "
+              "(each unrolled counter-increment site meets the wrap of the low counter byte), later cases draw lengths around loop edges and up to 64 KiB "
               "(1 MiB in thorough); AAD length (c/5) mod 81 on every fifth case else boundary-biased up to 2 KiB; tag 8/12/16; random data/AAD/IV/tag alignment 0..63, "
               "key-data at 16-byte residues; in-place or out-of-place; _nt variants with 64-byte aligned disjoint buffers; each case runs enc and dec for both key sizes "
               "on the family symbols and on the isal_/legacy API forced onto the family; one message of 2^29+17 bytes per family and key size (bit length beyond 32 bits; thorough also 2^31+5 and 2^32+33 bytes), "
